@@ -143,7 +143,7 @@ func TestC10PivTime(t *testing.T) {
 	if os.Getenv("VERIF_C10_PIVDEV") != "time" {
 		t.Skip("VERIF_C10_PIVDEV != time")
 	}
-	var piv, old, sec []History
+	var piv, old, sec, scl []History
 	rapid.Check(t, func(rt *rapid.T) {
 		h := genA(rt)
 		https := false
@@ -153,6 +153,8 @@ func TestC10PivTime(t *testing.T) {
 			}
 		}
 		switch {
+		case h.Bulk > 0 || len(scaleLabels(h)) > 0:
+			scl = append(scl, h)
 		case https:
 			sec = append(sec, h)
 		case hasRestartX(h):
@@ -164,7 +166,7 @@ func TestC10PivTime(t *testing.T) {
 	for _, set := range []struct {
 		n string
 		l []History
-	}{{"pivot", piv}, {"other", old}, {"with-https-add", sec}} {
+	}{{"pivot", piv}, {"other", old}, {"with-https-add", sec}, {"scale", scl}} {
 		var ru0, ru1 syscall.Rusage
 		syscall.Getrusage(syscall.RUSAGE_SELF, &ru0)
 		t0 := time.Now()
@@ -177,4 +179,59 @@ func TestC10PivTime(t *testing.T) {
 		cpu := time.Duration(ru1.Utime.Nano()+ru1.Stime.Nano()-ru0.Utime.Nano()-ru0.Stime.Nano())
 		fmt.Printf("%s: %d histories, %d ops, wall %v, cpu %v, cpu/history %v\n", set.n, len(set.l), ops, time.Since(t0), cpu, cpu/time.Duration(len(set.l)+1))
 	}
+}
+
+// TestC10ScaleTime (development aid, VERIF_C10_PIVDEV=scale): cost of one scale history in (a)
+// and (c), and the time the real Start() takes at 1025 / 4097 restored sessions.
+func TestC10ScaleTime(t *testing.T) {
+	if os.Getenv("VERIF_C10_PIVDEV") != "scale" {
+		t.Skip("VERIF_C10_PIVDEV != scale")
+	}
+	base := History{DB: "fresh", BulkBase: 0x7ffffe00}
+	for i, id := range []uint32{0x11, 0x22} {
+		base.Agents = append(base.Agents, AgentSpec{ID: id, Seed: byte(i + 1), Meta: Meta{Host: "h", User: "u", Domain: "d", IP: "1.2.3.4", Proc: "p.exe", OS: [5]uint32{10, 0, 1, 0, 19045}, OSArch: 9}})
+	}
+	for _, n := range []int{1025, 4097} {
+		for _, shape := range []string{"", "star", "chains", "random"} {
+			h := base
+			h.Bulk = n - 2
+			h.Ops = []Op{{K: "reg", A: 0}, {K: "reg", A: 1}}
+			if shape == "" {
+				h.Ops = append(h.Ops, Op{K: "bulkreg", V: uint64(n - 2)})
+			} else {
+				h.Ops = append(h.Ops, Op{K: "bulktree", V: uint64(n - 2), T: shape, B: 1, W: 16})
+			}
+			h.Ops = append(h.Ops, Op{K: "restartx"}, Op{K: "poll", A: 0})
+			t0 := time.Now()
+			va := checkA(h)
+			ta := time.Since(t0)
+			t0 = time.Now()
+			statsB = map[string]int{}
+			vc := checkC(h)
+			fmt.Printf("sessions=%d shape=%-7q (a) %v %v   (c) %v %v  real Start() ms: %v\n", n, shape, ta.Round(time.Millisecond), va, time.Since(t0).Round(time.Millisecond), vc, statsB)
+		}
+	}
+	h := base
+	h.Ops = []Op{{K: "reg", A: 0}, {K: "bulkladd", V: 1025, T: "mixed"}, {K: "restartx"}, {K: "poll", A: 0}}
+	t0 := time.Now()
+	va := checkA(h)
+	ta := time.Since(t0)
+	t0 = time.Now()
+	statsB = map[string]int{}
+	vc := checkC(h)
+	fmt.Printf("listeners=1025 (a) %v %v   (c) %v %v  %v\n", ta.Round(time.Millisecond), va, time.Since(t0).Round(time.Millisecond), vc, statsB)
+}
+
+func TestC10ScaleProf(t *testing.T) {
+	if os.Getenv("VERIF_C10_PIVDEV") != "prof" {
+		t.Skip()
+	}
+	base := History{DB: "fresh", BulkBase: 0x7ffffe00}
+	for i, id := range []uint32{0x11, 0x22} {
+		base.Agents = append(base.Agents, AgentSpec{ID: id, Seed: byte(i + 1), Meta: Meta{Host: "h", User: "u", Domain: "d", IP: "1.2.3.4", Proc: "p.exe", OS: [5]uint32{10, 0, 1, 0, 19045}, OSArch: 9}})
+	}
+	h := base
+	h.Bulk = 1023
+	h.Ops = []Op{{K: "reg", A: 0}, {K: "reg", A: 1}, {K: "bulktree", V: 1023, T: os.Getenv("SHAPE"), B: 1, W: 16}, {K: "restartx"}, {K: "poll", A: 0}}
+	checkA(h)
 }
